@@ -17,8 +17,10 @@ def handler_roles(ck, rule):
     any-reduction guard, strict, on the handler's value parameter.  Returns roles
     {'val': p, 'max': p, 'min': p} (parameter names)."""
     prog = ck.prog
-    h = A.ovf_handler(prog)
+    h = A.flag_writer(prog)
     params = [p for p in h.params if p != "self"]
+    if h.node.args.vararg is not None:
+        params.append(h.node.args.vararg.arg)
     pfs = fpaths(prog, h)
     ck.saw(h, paths=len(pfs))
     roles = {}
@@ -194,7 +196,7 @@ def sticky_and_ownership(ck, rule, owners=None):
     idiom); whole-record replacement only in __init__; overflow/underflow are raised only by the overflow
     handler; inaccuracy only by the funnel, the normaliser's Fxp branch and the two function wrappers."""
     prog = ck.prog
-    h = A.ovf_handler(prog)
+    h = A.flag_writer(prog)
     w1, w2 = A.wrappers(prog)
     allowed = {
         "overflow": {h.qualname},
@@ -234,7 +236,7 @@ def sticky_and_ownership(ck, rule, owners=None):
                         ck.bad(rule, f, "status flags are written under their literal names by their owners", "%s writes %s (computed key)" % (f.qualname, src(t)), node,
                                "a computed key can raise overflow/underflow outside the overflow handler: the flag no longer reports what happened in a write")
                         continue
-                    if key in allowed and not (effective_owners(prog, f) <= allowed[key]) and not (f.parent and f.parent.qualname in allowed[key]):
+                    if key in allowed and f.qualname not in allowed[key] and not (effective_owners(prog, f) <= allowed[key]) and not (f.parent and f.parent.qualname in allowed[key]):
                         ck.bad(rule, f, "status['%s'] is written only by %s" % (key, sorted(x.split('.')[-1] for x in allowed[key])),
                                "%s writes status['%s']" % (f.qualname, key), node,
                                "a flag raised outside its owner breaks 'iff': it no longer reports what happened in a write")
